@@ -36,6 +36,18 @@ def run(chk):
     mono = z3.Implies(x <= y, LN(x) <= LN(y))
     chk.prove("lemma:c07:small-n:query<=linear-counting(n)", base + [n >= 0, n < m, CNZ(tag) <= n, mono, lcn <= z3.ToReal(thr)], res <= lcn)
     chk.prove("canary:c07:query<linear-counting(n)", base + [n >= 0, n < m, CNZ(tag) <= n, mono, lcn <= z3.ToReal(thr), m == 128, n == 1], res < lcn, expect="refuted")
+    # the class level: query() is the kernel on the current registers (constructor constants and
+    # tables are C17's rows), also right after an update that follows an earlier query
+    from . import C17
+
+    try:
+        C17.glue_part(chk, None)
+        C17.query_fresh(chk, None)
+        C17.tables(chk)
+    except Exception as e:  # pyexec.Unsupported
+        if type(e).__name__ != "Unsupported":
+            raise
+        chk.undecided.append(("HyperLogLog glue", "unsupported construct in glue: %s" % e))
     # bounded, statistical: the envelope itself
     hl = chk.module("hyperloglog")
     rng = random.Random(chk.seed + 808)
